@@ -440,7 +440,11 @@ class C14Copy(Checker):
             return
         cp = w.docs[op['doc']]
         tsc = infork(lambda: w._quiet(lambda: w.verdict(cp.el)))
-        same = (tsc == ts0) if ts0[0] == 'text' else (tsc[0] == 'exc' and tsc[1] == ts0[1])
+        if ts0[0] == 'text' and tsc[0] == 'text' and node.parent is not None:
+            # a copy of a nested element is detached: indentation (which follows the tree level) aside
+            same = [l.lstrip() for l in ts0[1].split('\n')] == [l.lstrip() for l in tsc[1].split('\n')]
+        else:
+            same = (tsc == ts0) if ts0[0] == 'text' else (tsc[0] == 'exc' and tsc[1] == ts0[1])
         if not same:
             w.violate('C14', 'copy-differs', {'elem': node.name, 'original': _clip(ts0), 'copy': _clip(tsc),
                                               'diff': _textdiff(ts0, tsc)})
@@ -586,14 +590,14 @@ class C11Rebuild(Checker):
                     fresh = w.build(cs)
                 except BaseException as e:
                     return ['construct-failed', type(e).__name__]
-                for k in kids:
+                # the very same child objects (this is a throw-away fork), so that the comparison is about
+                # the parent alone and not about damage inside a nested child's own history
+                for c in node.children:
                     try:
-                        kn = w.build(k)
-                        fresh.el.add_child(kn.el)
-                        kn.parent = fresh
-                        fresh.children.append(kn)
+                        fresh.el.add_child(c.el)
+                        fresh.children.append(c)
                     except BaseException as e:
-                        return ['rebuild-rejected', k['name'], type(e).__name__]
+                        return ['rebuild-rejected', c.name, type(e).__name__]
                 acc = {}
                 for s in symbols:
                     acc[s] = infork(lambda: w._try_add(fresh, s))
